@@ -10,7 +10,7 @@ CONSTANTS
   I2 = {0, 1}
   I1 = {0}
   NTF = 3
-  LeafFs = {{0}, {0, 1, 2}}
+  LeafFs = {{0}, {0, 1, 2}, {0, 12}}
   ParentFs = {{0, 1}}
   Extras = {{}}
 SPECIFICATION Spec
